@@ -175,6 +175,30 @@ def tid_order(threads):
     return sorted(threads, key=lambda t: str(tid(t)))
 
 
+def separate_main_thread(case, rng):
+    """/proc/<pid>/stat holds thread-GROUP totals, task/<tid>/stat per-thread values: make the process-level
+    utime/stime (and usually name/state/other columns) differ from the main thread's own record, as they
+    do for every multi-threaded or once-multi-threaded process."""
+    if "rec" not in case["stat"]:
+        return case
+    prec = case["stat"]["rec"]
+    recs = [t["rec"] for t in case["threads"] if "rec" in t]
+    main = [r for r in recs if r["pid"] == case["pid"]]
+    if recs and rng.random() < 0.5:
+        # totals = sum over live threads + ticks of already reaped threads
+        for col in (10, 11):
+            tot = sum(r["f"][col] for r in recs) + rng.choice([0, 0, 1, 250, 10 ** 6])
+            if tot < 2 ** 64:
+                prec["f"][col] = tot
+    for m in main:
+        for col in (10, 11):
+            if m["f"][col] == prec["f"][col]:
+                prec["f"][col] += 1 + col
+        if m["f"][10] == prec["f"][11] or m["f"][11] == prec["f"][10]:
+            prec["f"][10] += 3
+    return case
+
+
 def gen_case(rng, family):
     pid = rng.choice([1, 2, 42, 4194303, rng.randrange(2, 4194304)])
     tck = rng.choice([100, 100, 100, 250, 1000, 1024, 60, 1])
@@ -201,13 +225,14 @@ def gen_case(rng, family):
             tids.append(t)
     threads = []
     for i, t in enumerate(tids):
-        tcomm = comm_b if (i == 0 and rng.random() < 0.7) else (
+        tcomm = comm_b if (i == 0 and rng.random() < 0.5) else (
             rng.choice([b"a) b", b") S 1 1 1", b"x) R 0 0 0 0 0 0", b"w) ", b"(a)) 5 5"]) if (family in ("threads", "paren") and rng.random() < 0.6)
             else gen_comm(rng))
         threads.append({"rec": gen_stat_rec(rng, t, style=style, comm=tcomm, ttys=ttys)})
     status = gen_status_rec(rng, comm_b, pid, stat["f"][0], nthr)
-    return {"family": family, "pid": pid, "tck": tck, "btime": btime, "tmap": tmap, "stat": {"rec": stat},
-            "status": {"rec": status}, "threads": tid_order(threads)}
+    return separate_main_thread(
+        {"family": family, "pid": pid, "tck": tck, "btime": btime, "tmap": tmap, "stat": {"rec": stat},
+         "status": {"rec": status}, "threads": tid_order(threads)}, rng)
 
 
 GARBAGE = [b"x", b"-", b"12a", b"--1", b"1.5x", b"0x10", b"S", b"\xff", b"1-"]
@@ -300,6 +325,7 @@ def corpus_cases():
     t["f"][9] = 0
     c["tck"] = 100
     c["threads"] = [{"rec": t}]
+    separate_main_thread(c, rng)
     out.append(c)
     return out
 
@@ -353,16 +379,46 @@ class Impl:
         if not well_formed:
             fp.write(d + "stat", stat)
             p._create_time = None
-        for m in METHODS_STAT + ["threads"]:
-            fn = getattr(p, m)
+        has_status = files.get("status") is not None
+        order = METHODS_STAT + ["threads"] + (METHODS_STATUS if has_status else [])
+
+        def getter(m):
             if m == "ppid" and not well_formed:
                 # the front end's ppid() first re-creates Process(pid) (PID-reuse check), which parses the
                 # malformed record for create_time: drive the platform method directly for malformed input
-                fn = p._proc.ppid
-            out[m] = fakeproc.outcome(fn)
-        if files.get("status") is not None:
-            for m in METHODS_STATUS:
-                out[m] = fakeproc.outcome(getattr(p, m))
+                return p._proc.ppid
+            return getattr(p, m)
+        # (1) plain calls, one after the other
+        for m in order:
+            out[m] = fakeproc.outcome(getter(m))
+        # (2) the same getters inside ONE oneshot() block: every getter after the first runs on warm caches
+        #     (memoised stat/status parses, cached cpu_times/ppid/uids); threads() and the status getters come
+        #     after seven stat getters, and threads()/cpu_times()/uids() are asked a second time at the end.
+        if not well_formed:
+            p._create_time = None
+        try:
+            with p.oneshot():
+                for m in order:
+                    out["oneshot:" + m] = fakeproc.outcome(getter(m))
+                for m in ("threads", "cpu_times", "name") + (("uids", "num_threads") if has_status else ()):
+                    out["oneshot2:" + m] = fakeproc.outcome(getter(m))
+        except BaseException as e:  # noqa: BLE001 — oneshot() itself failing is an observable
+            if isinstance(e, (KeyboardInterrupt, SystemExit)):
+                raise
+            out["oneshot:enter"] = {"kind": "exc", "exc": type(e).__name__}
+        # (3) as_dict(attrs=…) (enters oneshot() internally) — only when no plain getter raised, because one
+        #     raising getter aborts the whole dict
+        if well_formed and all(o["kind"] == "ok" for k, o in out.items() if ":" not in k):
+            attrs = [m for m in order]
+            r = fakeproc.outcome(p.as_dict, attrs=attrs)
+            if r["kind"] == "ok" and isinstance(r["value"], dict):
+                for m in attrs:
+                    if m in r["value"]:
+                        out["as_dict:" + m] = {"kind": "ok", "value": r["value"][m]}
+                    else:
+                        out["as_dict:" + m] = {"kind": "exc", "exc": "MissingKey"}
+            else:
+                out["as_dict:call"] = r if r["kind"] == "exc" else {"kind": "exc", "exc": "NotADict"}
         return out
 
 
@@ -436,7 +492,12 @@ def evaluate(impl, case, ans):
         raise InfraError("driver rejected case %r: %s" % (case.get("family"), ans))
     outs = impl.run(case, ans["files"])
     rows = []
-    for m, o in outs.items():
+    for key, o in outs.items():
+        m = key.split(":")[-1]            # "oneshot:threads" → "threads"
+        if m in ("enter", "call"):
+            # oneshot() / as_dict() itself raised: never promised, never modelled
+            rows.append((key, {"exc": o.get("exc")}, None, {"ok": "no exception"}, "spec"))
+            continue
         ci = canon_impl(m, o)
         mo, sp = ans["model"].get(m), ans["spec"].get(m)
         kind = None
@@ -444,7 +505,7 @@ def evaluate(impl, case, ans):
             kind = "spec"
         elif not agrees(m, ci, mo):
             kind = "model"
-        rows.append((m, ci, mo, sp, kind))
+        rows.append((key, ci, mo, sp, kind))
     return rows
 
 
@@ -518,7 +579,8 @@ def record(res, case, rows, source):
     """Count + record the first disagreement of a case. Returns True if any."""
     for m, ci, mo, sp, kind in rows:
         if "exc" in ci:
-            res.count("impl-exc:" + ci["exc"])
+            res.count("impl-exc:" + str(ci["exc"]))
+        res.count("observed:" + (m.split(":")[0] if ":" in m else "plain"))
     for m, ci, mo, sp, kind in rows:
         if kind == "spec":
             res.disagree("spec", {"case": case, "method": m, "source": source}, ci, mo, sp,
@@ -538,9 +600,11 @@ def exhaustive_cases():
     out = []
     base = gen_case(rng, "mixed")
     base["family"] = "exhaustive"
+    # the main thread's own record (tid == pid), whose counters differ from the process-level totals
+    main = [t for t in base["threads"] if "rec" in t and t["rec"]["pid"] == base["pid"]]
     # every state byte 0..255 (NUL excluded: cannot be printed by %c? it can, keep it)
     for b in range(256):
-        c = dict(base, stat={"rec": dict(base["stat"]["rec"], state=b, comm=b"a b".hex())}, threads=base["threads"][:1])
+        c = dict(base, stat={"rec": dict(base["stat"]["rec"], state=b, comm=b"a b".hex())}, threads=main)
         out.append(c)
     n_state = len(out)
     # every comm of length <= 3 over {(, ), space, newline, a, 0xff} for the process and its only thread
@@ -550,7 +614,7 @@ def exhaustive_cases():
     for _ in range(3):
         layer = [x + a for x in layer for a in alpha]
         comms += layer
-    trec = base["threads"][0]["rec"] if "rec" in base["threads"][0] else gen_stat_rec(rng, base["pid"])
+    trec = main[0]["rec"]
     for cm in comms:
         c = dict(base, stat={"rec": dict(base["stat"]["rec"], comm=cm.hex())},
                  status={"rec": dict(base["status"]["rec"], comm=cm.hex())},
@@ -656,7 +720,7 @@ def shrink(ctx, d):
                 return True
             return False
         # fewer threads
-        if method == "threads":
+        if method.split(":")[-1] == "threads":
             keep = ddmin(cur["threads"], lambda ts: bool(_violates(impl, drv, dict(cur, threads=ts), method)), max_tests=30)
             attempt(dict(cur, threads=keep))
         elif len(cur["threads"]) > 1:
